@@ -295,7 +295,11 @@ class TTCFG(
             if state in _counts:
                 return _counts[state]
             if state not in self.rules:
-                return {state[1][1]: 1}
+                # derive() marks the end of a derivation with UnknownType; any other
+                # non-terminal without rules was removed by clean(): it derives nothing
+                if isinstance(state[0], UnknownType):
+                    return {state[1][1]: 1}
+                return {}
             output: Dict[T, int] = defaultdict(int)
             for P in self.rules[state]:
                 info, new_state = self.derive(self.start_information(), state, P)
